@@ -116,6 +116,22 @@ Theorem C15_routing_size :
 Proof. vm_compute. repeat split. Qed.
 Print Assumptions C15_routing_size.
 
+(* PER-POINT ARRAYS.  In every function that validates a per-point argument (weights, alpha) the call of
+   _check_optional_array / _check_sized_array is the first event of that argument: nothing subscripts,
+   fancy-indexes (sort order!) or converts it before its length and finiteness are checked; and the
+   eight _setup_* families, adaptive_minmax and the aspls methods do validate theirs. *)
+Theorem C15_array_validation_first : forall t : list aentry,
+  array_routing_ok t = true ->
+  (forall e, In e t -> exists rest, a_events e = AValidate :: rest) /\
+  (forall r, In r required_arrays -> exists e, In e t /\ amatches r e = true /\
+                                     exists rest, a_events e = AValidate :: rest).
+Proof. exact array_routing_sound. Qed.
+Print Assumptions C15_array_validation_first.
+
+Theorem C15_array_routing_checked : array_routing_ok array_routing = true.
+Proof. vm_compute. reflexivity. Qed.
+Print Assumptions C15_array_routing_checked.
+
 Example C15_routing_hypotheses_nonvacuous :
   regular (Sc (Int 0)) = true /\ must_reject DPos false (Sc (Int 0)) = true.
 Proof. exact regular_bad_value. Qed.
